@@ -322,6 +322,47 @@ def subjectObj (k : Kind α) : Lin.Obj (State α) (Op α) Unit :=
 
 def visitNext (s : State α) (i : Nat) (c : Ctx) (v : α) : State α := subNext s i c v
 
+/-- an operation of a multicast subject as micro-steps: what it does before its broadcast loop(s)
+    (`pre`), one function per iteration of the loops (`visits`, over the observers registered when
+    the operation took the lock), and what it does afterwards (`post`).  Operations of different
+    goroutines never overlap (they hold `s.mu`); only `Unsubscribe` — which takes no subject lock —
+    can run between two `visits`.  `C10.micro_agrees`: run without interruption, the micro-steps are
+    the atomic step. -/
+structure Micro (α : Type) where
+  pre : State α
+  visits : List (State α → State α)
+  post : State α → State α
+
+def nextVisits (s : State α) (c : Ctx) (v : α) : List (State α → State α) :=
+  s.observers.map (fun i s' => visitNext s' i c v)
+
+def termVisits (s : State α) (n : Notif α) : List (State α → State α) :=
+  s.observers.map (fun i s' => subTerminal .delete s' i n)
+
+/-- `none`: the operation has no broadcast loop (Subscribe, Unsubscribe, anything on a terminated
+    subject, async's Next) or belongs to unicast (see `unicastLocked` / `unicastDeliver`) -/
+def Kind.micro (k : Kind α) (s : State α) (o : Op α) : Option (Micro α) :=
+  match s.status with
+  | .active =>
+    match k, o with
+    | .unicast _, _ => none
+    | .publish, .next c v => some ⟨s, nextVisits s c v, id⟩
+    | .behavior _, .next c v => some ⟨{ s with values := [(c, v)] }, nextVisits s c v, id⟩
+    | .replay cap, .next c v => some ⟨s, nextVisits s c v, fun s' => push cap s' c v⟩
+    | .async, .complete c =>
+      some ⟨{ s with status := .completed },
+            (s.values.map (fun p => nextVisits s p.1 p.2)).flatten ++ termVisits s (.complete c), unsubscribeAll⟩
+    | _, .error c e => some ⟨{ s with status := .errored c e }, termVisits s (.error c e), unsubscribeAll⟩
+    | _, .complete c => some ⟨{ s with status := .completed }, termVisits s (.complete c), unsubscribeAll⟩
+    | _, _ => none
+  | _ => none
+
+def Micro.run (m : Micro α) : State α := m.post (m.visits.foldl (fun s f => f s) m.pre)
+
+/-- the same with `f` (an `Unsubscribe` of another goroutine) slipped in after the first `n` visits -/
+def Micro.runWith (m : Micro α) (n : Nat) (f : State α → State α) : State α :=
+  m.post ((m.visits.drop n).foldl (fun s g => g s) (f ((m.visits.take n).foldl (fun s g => g s) m.pre)))
+
 /-! ### unicast, micro-steps: the part under `s.mu` and the deferred delivery are two actions.
     A thread that called `Next`/`Error`/`Complete` first runs `lockedPart` (atomically, under the
     mutex), which may leave it a pending delivery to the captured subscriber; `deliver` is that
